@@ -44,8 +44,8 @@ def auto_res(line):
     """auto line -> (tag, inner result dict, ainc, acomp)"""
     if line.startswith("panic") or line == "crash":
         return ("panic", {"k": "panic"}, None, None)
-    tag, rest = line.split(" ", 1)
-    r = res1(rest)
+    tag, _, rest = line.partition(" ")
+    r = res1(rest) if rest else {"k": "unreadable"}
     return (tag, r, r.get("ainc"), r.get("acomp"))
 
 
@@ -318,12 +318,37 @@ class C04(Prop):
                         continue
                     ops.append("%s %s" % (e, C.hexs(l + t)))
                 self._groups.append((start, len(ops), l))
+        # the same, with an unterminated read of about the same length parsed in between: the harness
+        # re-uses one receive buffer, so anything a parser remembers about "the buffer" (where it
+        # stopped scanning, how long it was) is stale when the header + trailer arrives
+        self._skip = set()
+        for l in V.valid_lines(rng, 40 if tier == "quick" else 600):
+            if V.oracle_v1(l) is None or not V.valid_utf8(l):
+                continue
+            for e in ("v1b", "v1s", "auto"):
+                start = len(ops)
+                ops.append("%s %s" % (e, C.hexs(l)))
+                for warm, t in ((l[:-2] + b"ab", b"GET / HTTP/1.1\r\n"), (l[:-2], b"\r\n"), (l[:-2] + b"abcde", b"0123456789\r\n"),
+                                (b"x" * (len(l) + 2), b"PROXY TCP4 1.1.1.1 2.2.2.2 1 2\r\n"), (l[:len(l) // 2], b"X")):
+                    self._skip.add(len(ops))
+                    ops.append("%s %s" % (e, C.hexs(warm)))
+                    ops.append("%s %s" % (e, C.hexs(l + t)))
+                    self._skip.add(len(ops))
+                    ops.append("%s %s" % (e, C.hexs(warm)))
+                    ops.append("%s %s" % (e, C.hexs(l)))
+                self._groups.append((start, len(ops), l))
         for i, h in enumerate(G.gen_valid_headers(rng, 150 if tier == "quick" else 4000, max_payload=200, big_every=10 ** 9)):
             for e in ("v2", "auto"):
                 start = len(ops)
                 ops.append("%s %s" % (e, G.spec(h)))
                 for t in V.TRAILERS:
                     ops.append("%s %s" % (e, G.spec(h + t)))
+                if i % 5 == 0:
+                    # an incomplete read of the same header first, then the header with a trailer
+                    for cut, t in ((len(h) - 1, b"\x00"), (16, b"PROXY"), (len(h) // 2, b"\r\n\r\n")):
+                        self._skip.add(len(ops))
+                        ops.append("%s %s" % (e, G.spec(h[:cut])))
+                        ops.append("%s %s" % (e, G.spec(h + t)))
                 if i < 6:
                     for x in G.gen_big_trailers(rng, [h]):
                         ops.append("%s %s" % (e, G.spec(x)))
@@ -351,6 +376,8 @@ class C04(Prop):
                 out.append(Violation("relation", ops[a], impl[a][:300], None, "generated well-formed header was not accepted"))
                 continue
             for j in range(a + 1, b):
+                if j in getattr(self, "_skip", ()):
+                    continue
                 if self.view(ops[j], impl[j]) != base:
                     out.append(Violation("relation", [ops[a], ops[j]], [impl[a][:300], impl[j][:300]], None,
                                          "result changes when bytes follow the header"))
@@ -394,6 +421,21 @@ class C05(Prop):
             for e in ("v2", "auto"):
                 ops.append("%s %s" % (e, G.spec(h[:c])))
                 self._meta.append(("v2", h, c))
+        # "is_complete is always the negation of is_incomplete, and a success is never flagged
+        # incomplete": on every kind of result, not only on prefixes - rejected, over-long, garbage,
+        # corrupted and accepted inputs through every entry point
+        anyp = v1_inputs(rng, tier, k=2)[:: (3 if tier == "quick" else 1)]
+        for n in (106, 107, 108, 200):
+            anyp += [b"a" * n, b"PROXY UNKNOWN " + b"b" * n, b"PROXY TCP4 " + b"1" * n + b"\r\n", b"\xff" * n]
+        for x in anyp:
+            for e in ("v1b", "auto") + (("v1s",) if V.valid_utf8(x) else ()):
+                ops.append("%s %s" % (e, C.hexs(x)))
+                self._meta.append(("flags", x, 0))
+        for o in G.gen_signature_corruptions(rng)[::7]:
+            ops.append(o)
+            self._meta.append(("flags", b"", 0))
+            ops.append("auto " + o.split(" ", 1)[1])
+            self._meta.append(("flags", b"", 0))
         return ops
 
     def project(self, op, line):
@@ -410,6 +452,15 @@ class C05(Prop):
         for op, il, (ver, h, c) in zip(ops, impl, self._meta):
             p = self.project(op, il)
             items = p if op.startswith("v1s") else (p,)
+            if ver == "flags":
+                for (k, inc, comp) in items:
+                    if k == "panic":
+                        continue
+                    if inc == comp or (k == "ok" and inc != "0") or (k == "inc") != (inc == "1"):
+                        out.append(Violation("relation", op, il[:300], None,
+                                             "is_complete must be the negation of is_incomplete (and false/true for a success): class=%s inc=%s comp=%s" % (k, inc, comp)))
+                        break
+                continue
             for (k, inc, comp) in items:
                 if k != "inc" or inc != "1" or comp != "0":
                     out.append(Violation("relation", op, il[:300], None,
@@ -512,6 +563,8 @@ class C06(Prop):
                 problems.append("auto incomplete iff v2 incomplete or (v2 terminal and v1 incomplete)")
             if "panic" in (c1, c2, ca):
                 problems.append("panic")
+            if ra.get("from") == "0":
+                problems.append("HeaderResult::from(<dedicated result>) is not that result tagged with its version, or parsing the same input twice differs")
             if problems:
                 out.append(Violation("relation", [ops[i], ops[i + 1], ops[i + 2]], [impl[i][:200], impl[i + 1][:200], impl[i + 2][:200]], None, "; ".join(problems)))
         return out
